@@ -86,6 +86,37 @@ def guard(fn, *a, **kw):
         raise Violation(f'raises:{type(e).__name__}@{where}', repr(e)[:300]) from e
 
 
+# ----------------------------------------------------------------------------- watchdog
+
+WATCHDOG_S = int(os.environ.get('VERIF_WATCHDOG_S', '300'))
+
+
+class watchdog:
+    """a single case that runs for minutes is a harness fault (exit 2), never reported as a violation and never
+    allowed to hang the check; deterministic non-termination oracles use read budgets instead (io_util)"""
+
+    def __init__(self, seconds, what):
+        self.seconds, self.what = seconds, what
+
+    def _fire(self, *_):
+        raise HarnessError(f'watchdog: one case of {self.what} exceeded {self.seconds}s')
+
+    def __enter__(self):
+        import signal
+        import threading
+        self.on = threading.current_thread() is threading.main_thread()
+        if self.on:
+            self.old = signal.signal(signal.SIGALRM, self._fire)
+            signal.setitimer(signal.ITIMER_REAL, self.seconds)
+
+    def __exit__(self, *exc):
+        import signal
+        if self.on:
+            signal.setitimer(signal.ITIMER_REAL, 0)
+            signal.signal(signal.SIGALRM, self.old)
+        return False
+
+
 # ----------------------------------------------------------------------------- known findings
 
 def load_known(pid):
@@ -144,7 +175,8 @@ class Ctx:
         self._cur = case
         self.subs[sub] += 1
         try:
-            prop(self, case)
+            with watchdog(WATCHDOG_S, sub):
+                prop(self, case)
         except Violation:
             raise
         except HarnessError:
